@@ -199,6 +199,7 @@ Definition in_output (out : list ainfo) (x : ainfo) : bool := existsb (fun y => 
    of the groupby iterator *)
 Record gen := { g_out : list ainfo; g_groups : list (Z * list ainfo) }.
 Definition gen0 := {| g_out := []; g_groups := [] |}.
+Definition log0 : list event := [].      (* the log at the entry of execute_actions *)
 
 Inductive step :=
 | SYield (a : action) (st : cstate) (g : gen) (evs : list event)
@@ -297,6 +298,11 @@ Definition forest_size (l : list action) : nat := fold_right (fun a n => asize a
 Definition commit_with (cfg : params) (acts : list action) : outcome * list event :=
   exec cfg (S (forest_size acts)) cstate0 gen0 acts [].
 Definition commit := commit_with cfg_current.
+
+(* ActionConfiguratorMixin.action (autocommit off): the action dict handed to the action state carries the
+   configurator's includepath, the given discriminator and order *)
+Definition declare (includepath : path) (i : N) (d : disc) (o : option Z) (adds : list action) : action :=
+  mkA i d includepath o adds.
 
 (* Configurator.include: the nested configurator's includepath *)
 Definition child_path (parent : path) (spec : text) : path :=
@@ -472,7 +478,7 @@ Fixpoint get_action (paths : list path) (v : val) {struct v} : option action :=
                | [] => Some []
                | x :: r => match get_action paths x, go r with Some a, Some rs => Some (a :: rs) | _, _ => None end
                end) adds with
-      | Some d', Some o', Some adds' => Some (mkA (Z.to_N i) d' (nth (Z.to_nat node) paths []) o' adds')
+      | Some d', Some o', Some adds' => Some (declare (nth (Z.to_nat node) paths []) (Z.to_N i) d' o' adds')
       | _, _, _ => None
       end
   | _ => None
